@@ -48,6 +48,9 @@ PROFILES = {
     "down": dict(max_connections=1, p_settings=0.4, allow_lower=True, segment="fine", init_max_streams=3),
     # like TCP: a read returns everything the server has written so far (several streams' frames in one read)
     "coalesce": dict(max_connections=1, init_max_streams=10, segment="whole", coalesce=True, downs=[0, 10, 3000], abandon=True, p_ping=0.1),
+    # a server that holds everything back until its PING is acknowledged, reads coalesced: the acknowledgement has to leave whoever reads it
+    "ackgate": dict(max_connections=1, init_max_streams=10, segment="whole", coalesce=True, p_ping=0.3, ping_with_frames=0.5, hold_until_ack=True,
+                    spawn_all_first=True),
     "one": dict(max_connections=1, init_max_streams=1, segment="whole", abandon=True, p_rst=0.1),
 }
 WANT = ["C12:"]
@@ -92,6 +95,7 @@ def run(ctx, driver):
     h2x.explore(ctx, rec, ID, PROFILES["up"], 120, 3000, WANT)
     h2x.explore(ctx, rec, ID, PROFILES["cancel"], 100, 2500, WANT)
     h2x.explore(ctx, rec, ID, PROFILES["coalesce"], 120, 3000, WANT)
+    h2x.explore(ctx, rec, ID, PROFILES["ackgate"], 80, 1500, WANT)
     h2x.explore(ctx, rec, ID, PROFILES["one"], 40, 800, WANT)
     h2x.explore(ctx, rec, ID, PROFILES["down"], 40, 800, WANT)
     # ---- life-cycle: a connection with requests in flight is never idle / expiring (F-C12-e) --------------------------------
